@@ -1,5 +1,6 @@
 import PyYetiVerif.Lemmas.Op4
 import PyYetiVerif.Lemmas.Op4File
+import PyYetiVerif.Lemmas.Op4Bytes
 import PyYetiVerif.Lemmas.Op4AsciiPuts
 import PyYetiVerif.Lemmas.Op4AsciiHalf
 /-!
@@ -195,6 +196,57 @@ example :
     let col : List Entry := [(0, 0), (1, 0), (2, 0), (0, 0), (9223372036854775808, 0), (3, 0)]
     strings false col = [(1, [(1, 0), (2, 0)]), (5, [(3, 0)])] ∧
       canonCol false col = [(0, 0), (1, 0), (2, 0), (0, 0), (0, 0), (3, 0)] := by
+  decide
+
+/-- **Whole files, at the level of bytes.**  `file_roundtrip_binary`, `bytes_roundtrip`,
+`name_roundtrip` and the format detection composed into one statement about `op4.write` followed by
+`op4.load(into='list', sparse=False)`: if the binary writer produces the byte string `bytes` for a
+non-empty list of matrices (either byte order, every matrix with its resolved layout), then the
+reader — `_decode_format` on the first bytes, 32-bit words from the bytes, `_loadop4_binary` until
+the end of the file, `_check_name`, the puts applied to zero matrices — returns exactly
+`canonFile ms`: per matrix, in file order, the lower-cased name, the shape, form and type, and the
+columns `decCol` (`decCol_spec`: bit-identical values; `-0.0` outside the written strings reads as
+`+0.0`).  Hypotheses (`Mat.WfB`): `Mat.Wf` with `rows < 2^27`, a valid name of at most 8 characters,
+elements that are 64-bit patterns; nonbigmat only below 65536 rows.  (An empty list of matrices
+writes an empty file, which `op4.load` refuses: `decodeBytes [] = none`.) -/
+theorem file_roundtrip_bytes (e : Endian) (ms : List (Layout × Mat)) (bytes : List Nat) (hne : ms ≠ [])
+    (hw : ∀ p ∈ ms, p.2.WfB ∧ (p.1 = .nonbigmat → p.2.rows < rows4bigmat))
+    (henc : encFileBytes e ms = some bytes) :
+    decodeBytes bytes = some (canonFile ms) := by
+  unfold encFileBytes at henc
+  cases hws : encFileWords e ms with
+  | none => rw [hws] at henc; cases henc
+  | some ws =>
+    rw [hws] at henc
+    simp only [Option.map_some, Option.some.injEq] at henc
+    subst henc
+    have hlt := encFileWords_lt32 e ms ws (fun p hp => (hw p hp).1) hws
+    obtain ⟨ds, hds, hdecs⟩ := file_roundtrip_binary e ms ws (fun p hp => ⟨(hw p hp).1.wf, (hw p hp).2⟩) hws
+    -- the first word is the record length of the header record
+    obtain ⟨ws', hws'⟩ : ∃ ws', ws = 24 :: ws' := by
+      cases ms with
+      | nil => exact absurd rfl hne
+      | cons p t =>
+        obtain ⟨lay, m⟩ := p
+        simp only [encFileWords] at hws
+        cases ha : encMatWords e lay m with
+        | none => simp [ha] at hws
+        | some a =>
+          cases hb : encFileWords e t with
+          | none => simp [ha, hb] at hws
+          | some b =>
+            simp only [ha, hb, Option.bind_eq_bind, Option.bind_some, Option.some.injEq] at hws
+            rw [← hws, encMatWords_eq e lay m a ha]
+            simp only [headerWords, hdrReclen, List.cons_append, List.append_assoc]
+            exact ⟨_, rfl⟩
+    unfold decodeBytes
+    rw [hws', decodeFormat_enc e ws', ← hws']
+    simp only [wordsOfBytes_bytesOfWords e ws hlt, hds]
+    exact toRMats_decs ms ds 0 hdecs fun p hp => ⟨(hw p hp).1.name_ident, (hw p hp).1.name_len⟩
+
+/-- an empty file is refused (`RuntimeError: … is empty or nearly empty`): the round trip needs at
+least one matrix -/
+theorem empty_file_refused : decodeBytes [] = none ∧ encFileBytes .little [] = some [] := by
   decide
 
 /-! ## The ASCII half
